@@ -9,6 +9,8 @@ use std::collections::HashSet;
 
 const SMALL_LIMIT: usize = 50_000;
 
+const MAXC_: u32 = 0x2FFFF;
+
 pub fn check_term(s: &mut Sess, rep: &mut Report, t: RegLan, k: usize, small_profile: bool) {
     let cap = if small_profile { SMALL_LIMIT } else if s.thorough { 6000 } else { 2000 };
     // pull the iterator item by item: a non-terminating enumeration cannot hang the monitor
@@ -96,7 +98,25 @@ pub fn check_term(s: &mut Sess, rep: &mut Report, t: RegLan, k: usize, small_pro
     while i < mine.len() {
         let x = mine[i];
         i += 1;
-        let probes = s.probe_chars(x);
+        // every class of x must be stepped through (the probe list of a term with hundreds of classes is a sample):
+        // both ends of every class, the first uncovered character, and the usual probes
+        let mut probes = s.probe_chars(x);
+        let rs = ranges_of(x);
+        if rs.len() > 64 {
+            let mut free = 0u32;
+            for &(lo, hi) in &rs {
+                probes.push(lo);
+                probes.push(hi);
+                if free == lo {
+                    free = hi.saturating_add(1);
+                }
+            }
+            if free <= MAXC_ {
+                probes.push(free);
+            }
+            probes.sort_unstable();
+            probes.dedup();
+        }
         for c in probes {
             rep.inc("closure_char_probes");
             let d = match guard(|| s.m.char_derivative(x, c)) {
@@ -247,6 +267,7 @@ pub fn run(p: &Params, rep: &mut Report) {
             super::ladder::traversal_gap(rep, super::ladder::Trav::Compile, centre, p.seed);
         }
     }
+    for_max_loop_programs(p, rep, p.size(6, 60), |prog, seed, rep| check_program(prog, seed, p.thorough, false, rep));
     let stride = 1;
     for_tiny_programs(p, rep, stride, p.size(150, 3000), |prog, seed, rep| check_program(prog, seed, p.thorough, true, rep));
     let n = p.size(120, 1200);
